@@ -1,8 +1,8 @@
 (* Property C09 -- chunking is a pure, read-independent function following the rolling-hash rule.
    This file contains only the property theorems (closed by [exact]), non-vacuity examples and
-   Print Assumptions.  Models: Model/Chunker.v, Model/ChunkSpec.v. *)
+   Print Assumptions.  Models: Model/Chunker.v (code), Model/ChunkSpec.v (stateless specification). *)
 From Bita Require Import Model.Base Model.RollSum Model.BuzHash Model.Chunker Model.ChunkSpec.
-From Bita Require Import Proofs.ChunkerRefine.
+From Bita Require Import Proofs.ChunkerRefine Proofs.BoundaryRule Proofs.ChunkFinal.
 
 (* (1) The chunk list does not depend on read sizes, Pending results or buffer refills: for every valid
    configuration, every data and every read schedule the streaming chunker (buffer-level model of
@@ -21,13 +21,62 @@ Theorem C09_stream_total :
     exists l, chunk_stream cfg data evs = Ok l.
 Proof. exact chunk_stream_ok. Qed.
 
+(* (2) The boundary rule: the chunks are those of the stateless specification -- a chunk starting at stream
+   offset s ends at the first length p >= max(min,1) at which the PURE hash of the W bytes ending at s+p
+   (zero padded before the stream start for RollSum) has all filter bits set, else at max, else at the end
+   of the data.  Tested positions: every p >= max(min,1); BuzHash additionally never tests stream
+   positions <= W (the first W bytes go through init) -- see C09_literal_rule_* below. *)
+Theorem C09_boundary_rule :
+  forall cfg data evs,
+    valid_config cfg = true -> c_win cfg < 4294967296 -> bytes_ok data ->
+    Forall (fun e => e <> EvRead 0) evs ->
+    chunk_stream cfg data evs = Ok (spec_chunks cfg false data).
+Proof. exact stream_is_spec_final. Qed.
+
+(* (3) The chunks tile the stream: offsets contiguous from 0, every chunk non-empty, lengths sum to the
+   input length; sizes: every chunk <= max, every chunk but the last >= min (= size for FixedSize). *)
+Theorem C09_tiling :
+  forall cfg data l,
+    valid_config cfg = true -> c_win cfg < 4294967296 -> bytes_ok data ->
+    chunk_oneshot cfg data = Ok l -> tiles 0 l (lenN data).
+Proof. exact oneshot_tiles_final. Qed.
+
+Theorem C09_sizes :
+  forall cfg data l o n,
+    valid_config cfg = true -> c_win cfg < 4294967296 -> bytes_ok data ->
+    chunk_oneshot cfg data = Ok l -> In (o, n) l ->
+    n <= c_max cfg /\ (o + n < lenN data ->
+       match c_algo cfg with AFixed => n = c_max cfg | _ => c_min cfg <= n end).
+Proof. exact oneshot_sizes_final. Qed.
+
+(* (4) The literal reading of C09 ("first position at or beyond the minimum where the hash of the trailing
+   window matches") would also test stream position W for BuzHash. Outside the class {BuzHash, min <= W}
+   the two rules coincide; inside it they differ: known finding F6, with a witness. *)
+Theorem C09_literal_rule_outside_known_class :
+  forall cfg data,
+    (c_algo cfg <> ABuzHash \/ c_win cfg < c_min cfg) ->
+    spec_chunks cfg true data = spec_chunks cfg false data.
+Proof. exact literal_rule_outside_known_class. Qed.
+
+Theorem C09_literal_rule_refuted :
+  exists cfg data,
+    valid_config cfg = true /\ bytes_ok data /\ c_algo cfg = ABuzHash /\ c_min cfg <= c_win cfg /\
+    chunk_oneshot cfg data <> Ok (spec_chunks cfg true data).
+Proof. exact literal_rule_refuted. Qed.
+
 (* non-vacuity: a concrete valid configuration, stream and schedule *)
 Example C09_example :
   let cfg := {| c_algo := ABuzHash; c_bits := 2; c_min := 4; c_max := 16; c_win := 4 |} in
   let data := [0;1;2;3;4;5;6;7;8;9;10;11;12;13;14;15;16;17;18;19;20;21;22;23;24] in
   valid_config cfg = true /\
-  chunk_stream cfg data [EvRead 1; EvPending; EvRead 3; EvRead 100] = Ok [(0,13); (13,9); (22,3)].
-Proof. vm_compute. split; reflexivity. Qed.
+  chunk_stream cfg data [EvRead 1; EvPending; EvRead 3; EvRead 100] = Ok [(0,13); (13,9); (22,3)] /\
+  spec_chunks cfg false data = [(0,13); (13,9); (22,3)].
+Proof. vm_compute. repeat split; reflexivity. Qed.
 
 Print Assumptions C09_schedule_independent.
 Print Assumptions C09_stream_total.
+Print Assumptions C09_boundary_rule.
+Print Assumptions C09_tiling.
+Print Assumptions C09_sizes.
+Print Assumptions C09_literal_rule_outside_known_class.
+Print Assumptions C09_literal_rule_refuted.
